@@ -152,6 +152,7 @@ func (c *FuncContract) Key() string {
 }
 
 type SpecFile struct {
+	Effects []EffectDecl
 	Pkg    string
 	Funcs  []*FuncContract
 	Specs  []*SpecFunc
@@ -536,7 +537,7 @@ var clauseKeywords = map[string]bool{
 	"uses": true, "prop": true, "trusted": true, "invariant": true, "panics_when": true, "inline": true,
 	"induction": true, "trigger": true, "expect": true, "cover": true, "nopanic": true, "uses_post": true,
 }
-var declKeywords = map[string]bool{"spec": true, "lemma": true, "ghost": true, "func": true, "loop": true, "pred": true}
+var declKeywords = map[string]bool{"spec": true, "lemma": true, "ghost": true, "func": true, "loop": true, "pred": true, "effects": true, "package-effects": true}
 
 // parseSpecText parses the concatenated //@ lines of one package.
 func parseSpecText(pkg string, lines []string) (sf *SpecFile, err error) {
@@ -645,6 +646,16 @@ func parseSpecText(pkg string, lines []string) (sf *SpecFile, err error) {
 			}
 			sf.Specs = append(sf.Specs, sfun)
 			curS = sfun
+		case "effects":
+			curF, curL, curLoop, curS = nil, nil, nil, nil
+			fs := strings.Fields(it.text)
+			if len(fs) < 1 {
+				panic(fmt.Errorf("spec: effects needs a function"))
+			}
+			sf.Effects = append(sf.Effects, EffectDecl{Key: pkg + "." + fs[0], Effects: fs[1:]})
+		case "package-effects":
+			curF, curL, curLoop, curS = nil, nil, nil, nil
+			sf.Effects = append(sf.Effects, EffectDecl{Key: "package:" + pkg, Effects: strings.Fields(it.text)})
 		case "ghost":
 			curF, curL, curLoop, curS = nil, nil, nil, nil
 			fs := strings.Fields(it.text)
